@@ -764,7 +764,7 @@ impl<'s> Parser<'s> {
                     "expected abbreviation with at most {} bytes, \
                          but found a longer abbreviation beginning with `{}`",
                     Abbreviation::capacity(),
-                    Bytes(&self.tz[start..i]),
+                    Bytes(&self.tz[start..self.pos()]),
                 ));
             }
             if !self.bump() {
@@ -823,7 +823,7 @@ impl<'s> Parser<'s> {
                     "expected abbreviation with at most {} bytes, \
                      but found a longer abbreviation beginning with `{}`",
                     Abbreviation::capacity(),
-                    Bytes(&self.tz[start..i]),
+                    Bytes(&self.tz[start..self.pos()]),
                 ));
             }
             if !self.bump() {
